@@ -1663,13 +1663,13 @@ async fn emit_event(
     buffer: &Arc<Mutex<Vec<Event>>>,
     event_log: &EventLog,
 ) {
-    let _ = sender.send(event.clone());
-    #[cfg(rip_verif)]
-    verif_emit_point("emit.published", &event);
     let mut guard = buffer.lock().await;
     guard.push(event.clone());
     #[cfg(rip_verif)]
     verif_emit_point("emit.recorded", &event);
+    let _ = sender.send(event.clone());
+    #[cfg(rip_verif)]
+    verif_emit_point("emit.published", &event);
     let _ = event_log.append(&event);
 }
 
